@@ -171,7 +171,15 @@ def relabel_unit(ctx, unit):
                 ctx.count('pss_orientation_flipped_cases')
             # outertan is outersin * inverse(outercos) evaluated in floats (1/k! constants); for d >= 4 the closed-form inverse loses
             # several digits on ordinary operands and the two bases evaluate differently ordered polynomials (see 8.2, C19)
-            bad = elem_diff(gA, gD, tol=1e-6) if (op == 'outertan' and d >= 4) else elem_diff(gA, gD)
+            if op == 'outertan' and d >= 4:
+                # (the residue on a blade whose exact coefficient is 0 is relative to the size of the whole result)
+                try:
+                    scale_ = max([1.0] + [abs(complex(v)) for v in list(gA.values()) + list(gD.values())])
+                    bad = sorted(k for k in set(gA) | set(gD) if abs(complex(gA.get(k, 0)) - complex(gD.get(k, 0))) > 1e-6 * scale_)
+                except Exception:
+                    bad = elem_diff(gA, gD, tol=1e-6)
+            else:
+                bad = elem_diff(gA, gD)
             if bad:
                 ctx.violation('operator does not commute with the relabelling map', cid, reference_blades=bad[:6],
                               custom_result=show_elem({k: gA.get(k, 0) for k in bad[:4]}),
